@@ -173,7 +173,7 @@ def leaves_quantity():
     f = sp.Function("f")
     return [S.Zero, S.One, sp.Integer(2), sp.Integer(-1), sp.Rational(1, 2), sp.Float(0.0), sp.Float(2.5), oo, -oo, nan, sp.pi,
             u.meter, u.centimeter, u.second, u.kilogram, u.radian, u.kilo, Quantity(0), Quantity(2 * u.meter), Quantity(-2 * u.meter),
-            Quantity(5 * u.second), x, sp.Derivative(f(x), x)]
+            Quantity(5 * u.second), x, sp.Derivative(f(x), x), u.hertz * u.second, u.joule / (u.newton * u.meter), u.degree]
 
 
 def trees(leaves, depth, rng, budget):
@@ -381,7 +381,7 @@ def decorator_scenarios():
     def mk(**guards):
         def deco(ran):
             @validate_input(**guards)
-            def f(a_, b_, c_=0):
+            def f(a_, b_=0, c_=0):
                 ran.append(1)
                 return L
             return f
@@ -399,6 +399,17 @@ def decorator_scenarios():
     out.append(expect_ok(lambda ran: mk(a_=(u.length, u.time))(ran)([L, T], T), "tuple units, element-wise"))
     out.append(expect_refusal(lambda ran: mk(a_=(u.length, u.time))(ran)([L, L], T), "a_[1]", "tuple units: second element against second unit"))
     out.append(expect_refusal(lambda ran: mk(a_=(u.time, u.length))(ran)([L, L], T), "a_[0]", "tuple units: first element against first unit"))
+
+    def mk_kwonly(ran):
+        @validate_input(a_=u.length, c_=u.time)
+        def f(a_, *, c_):
+            ran.append(1)
+            return L
+        return f
+    out.append(expect_refusal(lambda ran: mk(a_=u.length, c_=u.time)(ran)(L, c_=L), "c_", "guarded argument by keyword after an omitted defaulted parameter"))
+    out.append(expect_ok(lambda ran: mk(a_=u.length, c_=u.time)(ran)(L, c_=T), "keyword after an omitted defaulted parameter, right dimension"))
+    out.append(expect_refusal(lambda ran: mk_kwonly(ran)(L, c_=L), "c_", "keyword-only guarded parameter wrong"))
+    out.append(expect_ok(lambda ran: mk_kwonly(ran)(L, c_=T), "keyword-only guarded parameter right"))
 
     def mk_out(unit, ret):
         def thunk(ran):
@@ -476,8 +487,58 @@ def check_convert(i, j):
     return None
 
 
+CELSIUS_SAMPLES = [-273.15, -40, 0, 0.001, 29.7646, 36.6, 100, 961.78, 1064.18, 1e4 + 0.0625]
+
+
+def check_celsius(i):
+    from symplyphysics.core.symbols.celsius import Celsius, to_kelvin, from_kelvin, to_kelvin_quantity, from_kelvin_quantity
+    t = CELSIUS_SAMPLES[i]
+    tol = 1e-9 * max(1.0, abs(t))
+    if abs(to_kelvin(Celsius(t)) - (t + 273.15)) > tol:
+        return f"to_kelvin({t}) = {to_kelvin(Celsius(t))}"
+    if abs(from_kelvin(t + 273.15).value - t) > tol:
+        return f"from_kelvin({t + 273.15}) = {from_kelvin(t + 273.15).value}, expected {t}"
+    if abs(from_kelvin(to_kelvin(Celsius(t))).value - t) > tol:
+        return f"from_kelvin(to_kelvin({t})) = {from_kelvin(to_kelvin(Celsius(t))).value}"
+    if abs(from_kelvin_quantity(to_kelvin_quantity(Celsius(t))).value - t) > tol:
+        return f"from_kelvin_quantity(to_kelvin_quantity({t})) = {from_kelvin_quantity(to_kelvin_quantity(Celsius(t))).value}"
+    return None
+
+
+def check_evaluate(i):
+    """evaluate_expression leaves no quantity atom and replaces each by its SI number"""
+    from sympy.physics.units import Quantity as SymQuantity
+    from symplyphysics.core.convert import evaluate_expression, convert_to_si
+    from symplyphysics import Quantity
+    u = _units()
+    x = sp.Symbol("x")
+    exprs = [5 * u.kilometer, Quantity(3 * u.kilometer) * u.kilometer + x * u.meter**2, x * u.speed_of_light**2, Quantity(2 * u.gram) * x + u.kilogram,
+             sp.sqrt(Quantity(4 * u.meter**2)) * x, u.newton * x / Quantity(2 * u.second), sp.sin(x) * Quantity(3 * u.joule) - u.joule]
+    e = exprs[i]
+    r = evaluate_expression(e)
+    if r.atoms(SymQuantity):
+        return f"evaluate_expression({e}) = {r} still contains quantities"
+    want = e.subs({q: convert_to_si(q) for q in e.atoms(SymQuantity)})
+    if sp.simplify(r - want) != 0:
+        return f"evaluate_expression({e}) = {r}, expected {want}"
+    return None
+
+
 def search_convert(seed=0, budget=0):
     n = 0
+    for i in range(len(CELSIUS_SAMPLES)):
+        n += 1
+        why = check_celsius(i)
+        if why:
+            return ("celsius", i), why, n
+    for i in range(7):
+        n += 1
+        try:
+            why = check_evaluate(i)
+        except Exception as e:
+            why = f"evaluate_expression check crashed: {type(e).__name__}: {e}"
+        if why:
+            return ("evaluate", i), why, n
     m = len(convert_pool())
     for i in range(m):
         for j in range(m):
@@ -492,6 +553,25 @@ def search_convert(seed=0, budget=0):
 
 
 def replay_convert(key):
-    why = check_convert(*key)
+    why = check_celsius(key[1]) if key[0] == "celsius" else check_evaluate(key[1]) if key[0] == "evaluate" else check_convert(*key)
     assert why is None, why
     print("contract holds on this input")
+
+
+def generation_fallback(report, kind, unit, err, seed=0, budget=8000):
+    """VC generation failed (the code left the modelled Python/SymPy subset): that is a checker fault (exit 3) -- unless the
+    executable contract finds a REAL input on which the function violates its contract, which is reported as a violation
+    with that input (bounded search; a clean search decides nothing)."""
+    from ..core import Ob, REFUTED
+    report.fault(f"VC generation failed: {err}")
+    fn = {"collect_quantity": search_collect_quantity, "gate": search_gate, "convert": search_convert}[kind]
+    t, why, n = fn(seed, budget)
+    if t is None:
+        report.add_bounded(f"fallback search of the executable {kind} contract after a generation failure", f"{n} enumerated real inputs", n, True)
+        return
+    if kind in ("gate", "convert"):
+        script = f"from vf.contracts.refimpl import replay_{kind}\nreplay_{kind}({t!r})\n"
+    else:
+        script = f"from vf.contracts.refimpl import replay_tree\nreplay_tree({kind!r}, {seed}, {n})\n"
+    report.add(Ob(f"{unit}/executable-contract/{kind}/first-disagreement", REFUTED, "exec-search", 0.0, f"{why} (found after a VC generation failure: {err})", str(t),
+                  {"reproduced": True, "script": script, "inputs": str(t)}))
